@@ -6,6 +6,12 @@ ALL = ["C%02d" % i for i in range(1, 21)]
 
 # property id -> dict(category, text, note, technique, design_ref)
 CLAIMED = {
+    "C20": dict(
+        category="proof",
+        text="check_key_helper is evaluated abstractly over a byte-string shape domain (patterns of runs of ordinary / non-ASCII / each of the six whitespace bytes / NUL, up to 3 runs quick and 4 thorough, with prefix shapes and length scenarios 249/250/251 in characters, encoded bytes and prefixed bytes): >55k abstract inputs, each compared with the specified predicate, exception type and return value; plus call-site rules showing the three client classes apply this one function with their own prefix/unicode setting and that every key fragment on the wire went through it.",
+        note="Trusted: CPython ast; transformer semantics of bytes.split/len/in/encode in pmcsa/keyeval.py; re._parser if a regex is used. Empty prefixed keys are outside C20 (see C02).",
+        technique="finite abstract evaluation over a byte-string shape domain + call-site conformance",
+    ),
     "C16": dict(
         category="other",
         text="Conformance of PooledClient/HashClient/RetryingClient with Client: signatures of the key-addressed operations, forwarding of every parameter exactly once and unmodified (and used for nothing else), propagation of every shared constructor option to the inner clients, RetryingClient transparency. Identical wire bytes per server state are a runtime statement that follows only with client_class = Client.",
